@@ -21,7 +21,9 @@ BOOLS = ['TRUE', 'FALSE']
 ERRS = ['#NULL!', '#DIV/0!', '#VALUE!', '#REF!', '#NAME?', '#NUM!', '#N/A']
 REFS = ['A1', '$A$1', 'A$1', '$A1', 'AB12', 'Sheet2!A1', 'Sheet2!$A$1',
         "'My Sheet'!A1", "'It''s'!B2", 'A1:B2', '$A$1:$B$2', 'Sheet2!A1:B2',
-        "'My Sheet'!A1:B2", 'A:A', '1:1', "'@home'!$B$2"]
+        "'My Sheet'!A1:B2", 'A:A', '1:1', "'@home'!$B$2",
+        # an exclamation mark inside a quoted sheet name
+        "'Q1!new'!A1", "'a!b'!$D$4:E5"]
 STRS = ['C:\\data\\', 'a\\"b', '\\', '', 'a', 'a b', 'A1', '1', '""'.replace('""', '"'), ',', ')', ': ',
         '#N/A', "'", '{;}', '%', '[x]', '=1+1', 'é',
         # what the tokenizer / parser treat specially elsewhere
